@@ -17,6 +17,8 @@ def gen_history(rng, B, L):
             return rng.choice(sorted(al.live))
         return rng.randrange(0, B)
     for _ in range(L):
+        if rng.random() < 0.03:
+            ops.append((5, 77, rng.randrange(2), 0)); continue      # a creation that panics (see harness): no change
         c = rng.choices(range(12), [5, 2, 4, 2, 1.2 if count < 4 else 0, 3, 0.7, 5, 2, 4, 2, 2])[0]
         x = y = z = 0
         al = extras.get(cur) if (cur != 0 and cur <= count) else None
